@@ -23,7 +23,7 @@ import (
 	"verifharness/hx"
 )
 
-var stats = evid.New("C17", "rapid: a bundle built by a real upload of a generated tree (shapes: mixed = hx.GenTree 1..10 files with unicode/space/dot names and reserved-path decoys; wide = one directory with 1..80 children (files and sub-directories, names of 1..56 bytes so that dirents have different sizes) plus a few multi-leaf files; deep = a chain 6..12 levels deep with files on the way; tiny = 0..2 files incl. the empty bundle), leaf 4096..65536, file sizes k*L+d (k 0..3), optionally some entries renamed to .conflicts/<split>/<path> in the stored file list; mounted with NewReadOnlyFS exactly like `datamon bundle mount` (streamed: cache 1..4 leaves or default, prefetch 0..2, hash verification on/off; or staged = pre-downloaded); then a generated program of 8..40 operations issued like the kernel would (paths resolved by LookUpInode from the root): lookup (present), lookup of absent names (foreign name, prefix, extension, other case), getattr, opendir+readdir walks with buffer sizes from {64,128,512,4096} (raised to the size of the largest dirent of that directory) followed by walks resumed at previously returned offsets, read(off,len) with offsets around leaf boundaries / EOF / past EOF. Oracle: map model of the tree. Non-trivial: the program contains a resumed readdir on a directory that needed >= 2 buffers, or a read spanning a leaf boundary; distinct by (shape, depth class, sibling class, empty file, multi-leaf file, conflicts, mode, op mix).")
+var stats = evid.New("C17", "rapid: a bundle built by a real upload of a generated tree (shapes: mixed = hx.GenTree 1..10 files with unicode/space/dot names and reserved-path decoys; wide = one directory with 1..100 children (files and sub-directories, names of 1..56 bytes so that dirents have different sizes) plus a few multi-leaf files; deep = a chain 6..12 levels deep with files on the way; tiny = 0..2 files incl. the empty bundle), leaf 4096..65536, file sizes k*L+d (k 0..3), optionally some entries renamed to .conflicts/<split>/<path> in the stored file list; mounted with NewReadOnlyFS exactly like `datamon bundle mount` (streamed: cache 1..4 leaves or default, prefetch 0..2, hash verification on/off; or staged = pre-downloaded); then a generated program of 8..40 operations issued like the kernel would (paths resolved by LookUpInode from the root): lookup (present), lookup of absent names (foreign name, prefix, extension, other case), getattr, opendir+readdir walks with buffer sizes from {64,128,512,4096} (raised to the size of the largest dirent of that directory) followed by walks resumed at previously returned offsets, read(off,len) with offsets around leaf boundaries / EOF / past EOF. Oracle: map model of the tree. Non-trivial: the program contains a resumed readdir on a directory that needed >= 2 buffers, or a read spanning a leaf boundary; distinct by (shape, depth class, sibling class, empty file, multi-leaf file, conflicts, mode, op mix).")
 
 func TestMain(m *testing.M) {
 	code := m.Run()
@@ -182,9 +182,9 @@ func genWide(t *rapid.T, L uint32) hx.TreeSpec {
 	base := genDirPath(t, 2, "base")
 	var n int
 	if rapid.Bool().Draw(t, "n_const") {
-		n = rapid.SampledFrom([]int{1, 2, 3, 10, 40, 79, 80}).Draw(t, "n")
+		n = rapid.SampledFrom([]int{1, 2, 3, 10, 40, 80, 100}).Draw(t, "n")
 	} else {
-		n = rapid.IntRange(1, 80).Draw(t, "n")
+		n = rapid.IntRange(1, 100).Draw(t, "n")
 	}
 	longNames := rapid.Bool().Draw(t, "long_names")
 	for i := 0; i < n; i++ {
@@ -494,6 +494,7 @@ func mount(sc *hx.Scratch, v *hx.Views, repo, id string, m modeT, leaf uint32) (
 type outcome struct {
 	resumedMulti bool // a resumed readdir on a directory that needed >= 2 buffers
 	spanning     bool // a read spanning a leaf boundary
+	pageMulti    bool // a directory whose listing with a page-sized (4096) buffer needed >= 2 calls
 	kinds        map[string]bool
 }
 
@@ -526,7 +527,7 @@ func runCase(c caseT) (*outcome, error) {
 	}
 	// closing sweep: the whole tree as `find` + `cat` would see it (every directory listed with a
 	// page-sized buffer, every file read in full)
-	if err := k.sweep(int(c.Tree.Leaf)); err != nil {
+	if err := k.sweep(int(c.Tree.Leaf), out); err != nil {
 		return out, fmt.Errorf("final sweep: %v", err)
 	}
 	return out, nil
@@ -653,6 +654,9 @@ func record(c caseT, out *outcome) {
 	}
 	if out.spanning {
 		stats.Count("leaf_spanning_read", 1)
+	}
+	if out.pageMulti {
+		stats.Count("listing_needs_two_4096_buffers", 1)
 	}
 	if len(c.Conflicts) > 0 {
 		stats.Count("with_conflict_entries", 1)
